@@ -112,8 +112,11 @@ CHECKS["C12"] = ("Proof: C12.disk_list_report / disk_extract_report — for ever
                  "'empty', plural, blocks, percentage), then '---', 'TOTAL' and the totals for an extraction; report_lines_are_the_files — one line "
                  "per file written, printed size = length of the content read, printed blocks = length of the chain; update_total_is_files_added — "
                  "the total a create/add announces is the number of files the image gained (for --create: the number a later --extract writes); "
-                 "tape create/list lines carry the true size, data-block count and leader ordinal; plural rule, counter steps. Not proved: the "
-                 "per-side text of create/add reports (compared with the model and parsed). Tie/oracle: reports of "
+                 "update_report_text / create_report_text — on a consistent image, whatever the batch, a create/add prints exactly Disk.updateText: "
+                 "four sections for the sides 0,1,2,3 in this order (heading, the line of each stored file, refused file or skipped source, the "
+                 "count of the files stored in the section with plural/blocks/percentage) then the totals, and the count closing a section is the "
+                 "number of files the written image gained on that side (the events of a batch are proved well-bracketed: Disk.Trace); "
+                 "tape create/list lines carry the true size, data-block count and leader ordinal; plural rule, counter steps. Tie/oracle: reports of "
                  "create/add/list/extract x quiet/verbose parsed into facts and compared with the independent decoding of the archive.", D, "7 C12")
 CHECKS["C13"] = ("Proof: tool's token table = pinned MO5 table, codes >= 0x80 / FFxx, injective, keywords distinct; every keyword typed alone "
                  "(upper or lower case) yields its token, ELSE with colon (finite, whole table, kernel evaluation of the model); file = FF, "
